@@ -163,6 +163,7 @@ type An struct {
 	NonNegative func(ssa.Value) bool
 
 	params   map[*ssa.Parameter]AV
+	lenSym   map[ssa.Value]ssa.Value
 	depth    int
 	visiting map[ssa.Value]bool
 	parent   *An
@@ -331,6 +332,7 @@ func (an *An) base(v ssa.Value, facts []ir.Fact) AV {
 		an.visiting[v] = true
 		defer delete(an.visiting, v)
 		var as []AV
+		incr, decr := false, false
 		for i, e := range x.Edges {
 			pred := x.Block().Preds[i]
 			fs := append([]ir.Fact{}, ir.BlockFacts(pred)...)
@@ -339,9 +341,41 @@ func (an *An) base(v ssa.Value, facts []ir.Fact) AV {
 					fs = append(fs, ir.EdgeFacts(pred, si)...)
 				}
 			}
+			// loop-carried monotone update: phi = phi + d with d >= 0 (or <= 0):
+			// the edge cannot lower (raise) the value, so the lower (upper)
+			// bounds of the other edges remain valid; the other side is widened away.
+			if b, ok := ir.Resolve(e).(*ssa.BinOp); ok && (b.Op == token.ADD || b.Op == token.SUB) {
+				var d ssa.Value
+				if ir.Resolve(b.X) == v {
+					d = b.Y
+				} else if b.Op == token.ADD && ir.Resolve(b.Y) == v {
+					d = b.X
+				}
+				if d != nil {
+					da := an.Eval(d, fs)
+					lo, hi, okLo, okHi := da.ConstBounds()
+					up := (b.Op == token.ADD && okLo && lo >= 0) || (b.Op == token.SUB && okHi && hi <= 0)
+					down := (b.Op == token.ADD && okHi && hi <= 0) || (b.Op == token.SUB && okLo && lo >= 0)
+					if up && !da.NaN {
+						incr = true
+						continue
+					}
+					if down && !da.NaN {
+						decr = true
+						continue
+					}
+				}
+			}
 			as = append(as, an.Eval(e, fs))
 		}
-		return join(as)
+		r := join(as)
+		if incr {
+			r.Hi, r.Exact = nil, nil
+		}
+		if decr {
+			r.Lo, r.Exact = nil, nil
+		}
+		return r
 	case *ssa.Convert:
 		in := an.Eval(x.X, facts)
 		switch {
@@ -561,6 +595,23 @@ func (an *An) binop(v *ssa.BinOp, facts []ir.Fact) AV {
 func (an *An) call(c *ssa.Call, facts []ir.Fact) AV {
 	name := ir.CallName(c)
 	args := c.Call.Args
+	if name == "builtin:len" && len(args) == 1 {
+		// all len() calls on the same (immutable-length) SSA value denote one symbol
+		root := an
+		for root.parent != nil {
+			root = root.parent
+		}
+		if root.lenSym == nil {
+			root.lenSym = map[ssa.Value]ssa.Value{}
+		}
+		k := ir.Resolve(args[0])
+		if _, ok := root.lenSym[k]; !ok {
+			root.lenSym[k] = c
+		}
+		a := exactAV(Sym(root.lenSym[k]))
+		a.Lo = append(a.Lo, Konst(0))
+		return a
+	}
 	switch name {
 	case "math.Min", "math.Max":
 		a, b := an.Eval(args[0], facts), an.Eval(args[1], facts)
